@@ -3,6 +3,8 @@
 Proved kernel: the digit count used by ints_to_strings / int_to_str (io/strops.py::_n_decimal_digits, an exact search in
 a table of powers of ten): for EVERY magnitude 0 <= x < 2**63 the result is the number of decimal digits of x
 (1 for x < 10, d+1 for 10**d <= x < 10**(d+1), 19 for x >= 10**18) - a 19-case split over the real table.
+Also: str_to_int on a fixed-width digit matrix (widths 1, 2, 7, 19: exact decimal value) and _build_power_array without decimal points (entry k
+of row i is lens(i)-1-k for every batch: the one-cumulative-sum trick re-bases correctly at every row start; lemma by induction).
 """
 import types
 import z3
@@ -10,8 +12,9 @@ from pyvc.core import I, B, And, Or, Not, Implies, Ite, in_range, Forall, SArr, 
 from pyvc.verify import Contract
 
 ASSUMPTIONS = ["np.searchsorted(table, x, side='right') bracketing contract (validated bounded)", "magnitudes are mathematical integers below 2**63"]
-NOT_PROVED = ["digit placement through the ragged power table (_build_power_array), sign handling of str_to_int, int_lists_to_strings, float parsing and "
-              "formatting (floating point), batch independence: bounded (rtc/enum_c18.py)", "np.abs(-2**63) overflow: known finding"]
+NOT_PROVED = ["the power table with decimal points (dots is not None), the ragged branch of str_to_int beyond its frame (C20) - sum of digit * 10**exponent -, "
+              "ints_to_strings' digit extraction, int_lists_to_strings, float parsing and formatting (floating point), batch independence as a whole: "
+              "bounded (rtc/enum_c18.py)", "np.abs(-2**63) overflow: known finding"]
 
 
 class St(types.SimpleNamespace):
@@ -162,14 +165,15 @@ def _ens_bpa(ctx, st, ret):
 
 
 def _hints_bpa(ctx, st, ks):
+    if not hasattr(st, "row"):
+        return []
+    if len(ks) >= 2:                      # the entry clause: flat position of entry k of row i
+        i, k = ks[0], ks[1]
+        p = st.C(i) + k
+        return [p, st.row(p), st.X(p + 1), st.C(i + 1), st.C(st.row(p)), st.C(st.row(p) + 1)]
     out = []
-    if hasattr(st, "row"):
-        for k in ks[:2]:
-            out += [st.row(k), st.row(k + 1), st.C(st.row(k)), st.C(st.row(k) + 1), st.C(st.row(k + 1)), st.C(st.row(k + 1) + 1), st.X(k + 1), st.X(k + 2), st.row(k) - 1, st.row(k + 1) - 1]
-        if len(ks) >= 2:
-            i, k = ks[0], ks[1]
-            p = st.C(i) + k
-            out += [p, st.row(p), st.X(p + 1), st.C(i + 1)]
+    for q in ks[:1]:                      # the induction step: flat positions q-1 and q, their rows and the row starts around them
+        out += [st.row(q - 1), st.row(q), st.C(st.row(q - 1)), st.C(st.row(q - 1) + 1), st.C(st.row(q)), st.C(st.row(q) + 1), st.X(q), st.X(q + 1), st.row(q) - 1]
     return out
 
 
